@@ -14,6 +14,22 @@ DISPLAY_CALLS = {'color', 'command_format', 'to_str', 'type_str', 'id_str', 'val
 def _flatten_add(sym):
     if isinstance(sym, ast.BinOp) and isinstance(sym.op, ast.Add):
         return _flatten_add(sym.left) + _flatten_add(sym.right)
+    if isinstance(sym, ast.Call) and isinstance(sym.func, ast.Attribute) and sym.func.attr == 'join' and isinstance(sym.func.value, ast.Constant) \
+            and sym.func.value.value == '' and len(sym.args) == 1 and not sym.keywords:
+        # ''.join(parts) of a list known element by element on this path is the concatenation of the parts
+        from ..sim import _literal_elts
+        elts = _literal_elts(sym.args[0])
+        if elts is not None:
+            out = []
+            for x in elts:
+                out += _flatten_add(x)
+            return out
+    if isinstance(sym, ast.Call) and isinstance(sym.func, ast.Attribute) and sym.func.attr == 'format' and isinstance(sym.func.value, ast.Constant) \
+            and isinstance(sym.func.value.value, str) and not sym.keywords and re.fullmatch(r'(?:\{\})+', sym.func.value.value) and len(sym.args) == sym.func.value.value.count('{}'):
+        out = []        # '{}{}'.format(a, b) is str(a) + str(b)
+        for x in sym.args:
+            out += _flatten_add(x)
+        return out
     return [sym]
 
 
